@@ -36,13 +36,16 @@ def gen_obj(rng, pardim=None, dim=None, rational=None, kinds=None, pmax=None, ni
     n = int(np.prod(shape))
     ncomp = dim + (1 if rational else 0)
     cps = []
+    # one object in ten is built from integer control points and keeps numpy's integer dtype (what
+    # Curve(basis, [[0, 0], [1, 2]]) gives): operations must not truncate or fail on it
+    intcps = rng.random() < 0.1
     for i in range(n):
-        pt = [Fr(rng.randint(-64, 64), rng.choice([1, 2, 4, 8])) for _ in range(dim)]
+        pt = [Fr(rng.randint(-64, 64), 1 if intcps else rng.choice([1, 2, 4, 8])) for _ in range(dim)]
         if rational:
-            w = rng.choice([Fr(1, 4), Fr(1, 2), Fr(1), Fr(1), Fr(3, 2), Fr(2), Fr(4)])
+            w = rng.choice([Fr(1), Fr(1), Fr(2), Fr(4)] if intcps else [Fr(1, 4), Fr(1, 2), Fr(1), Fr(1), Fr(3, 2), Fr(2), Fr(4)])
             pt = [x * w for x in pt] + [w]
         cps.append(pt)
-    return dict(bases=bases, cps=cps, dim=dim, rational=bool(rational))
+    return dict(bases=bases, cps=cps, dim=dim, rational=bool(rational), intcps=intcps)
 
 
 def make_impl(spec):
@@ -52,7 +55,10 @@ def make_impl(spec):
     bs = [BSplineBasis(b['order'], [float(x) for x in b['knots']], b['periodic']) for b in spec['bases']]
     shape = [nfun(b) for b in spec['bases']]
     ncomp = spec['dim'] + (1 if spec['rational'] else 0)
-    arr = np.array([[float(x) for x in pt] for pt in spec['cps']], dtype=float).reshape(shape + [ncomp])
+    if spec.get('intcps') and all(Fr(x).denominator == 1 for pt in spec['cps'] for x in pt):
+        arr = np.array([[int(x) for x in pt] for pt in spec['cps']], dtype=int).reshape(shape + [ncomp])
+    else:
+        arr = np.array([[float(x) for x in pt] for pt in spec['cps']], dtype=float).reshape(shape + [ncomp])
     cls = {1: Curve, 2: Surface, 3: Volume}.get(len(bs))
     if cls is None:
         return SplineObject(bs, arr, spec['rational'], raw=True)
@@ -67,7 +73,7 @@ def snapshot(o):
     flat = arr.reshape(-1, ncomp)
     cps = [[C.fr(x) for x in row] for row in flat]
     return dict(bases=bases, cps=cps, dim=int(o.dimension), rational=bool(o.rational),
-                shape=list(arr.shape[:-1]))
+                shape=list(arr.shape[:-1]), intcps=bool(arr.dtype.kind in 'iu'))
 
 
 def finite(o):
@@ -100,12 +106,12 @@ def read_obj(tk):
 
 def spec_json(s):
     return dict(bases=[dict(order=b['order'], knots=[str(x) for x in b['knots']], periodic=b['periodic']) for b in s['bases']],
-                cps=[[str(x) for x in p] for p in s['cps']], dim=s['dim'], rational=s['rational'])
+                cps=[[str(x) for x in p] for p in s['cps']], dim=s['dim'], rational=s['rational'], intcps=bool(s.get('intcps', False)))
 
 
 def spec_from_json(j):
     return dict(bases=[dict(order=b['order'], knots=[Fr(x) for x in b['knots']], periodic=b['periodic']) for b in j['bases']],
-                cps=[[Fr(x) for x in p] for p in j['cps']], dim=j['dim'], rational=j['rational'])
+                cps=[[Fr(x) for x in p] for p in j['cps']], dim=j['dim'], rational=j['rational'], intcps=bool(j.get('intcps', False)))
 
 
 def domain(b):
@@ -126,6 +132,7 @@ def dir_points(rng, b, tol, n_in=3, outside=True):
         if b['periodic'] >= 0:
             T = e - s
             pts.append((s + T * Fr(rng.randint(0, 32), 32) + rng.choice([-2, -1, 1, 2]) * T, 'wrap'))
+            pts.append((s + rng.choice([-2, -1, 2, 3]) * T, 'seam_image'))
         else:
             pts.append((s - rng.choice([Fr(1, 2) * tol, 4 * tol, Fr(1)]), 'out'))
             pts.append((e + rng.choice([Fr(1, 2) * tol, 4 * tol, Fr(1)]), 'out'))
